@@ -318,6 +318,26 @@ def r4b_single_writer(ctx):
                       "so the memory-less phase and the offset of the step sizes are not the configured ones")
     if n == 0:
         ctx.violation("C05.R4b", (SAMP, "AlgorithmWithSamplersMixin.__init__"), None, "no statement derives `n_burn_in_iter` any more", construct="writers of n_burn_in_iter")
+    # the derived length stays in the algorithm's own copy of the parameters: nothing writes the caller's settings (a derived count written
+    # there would be read as an explicit one - which has priority over the fraction - the next time the settings are used)
+    import re as _re
+    SETTINGS = _re.compile(r"(^|[._])(algorithm_)?settings\.parameters$")
+    for f in ctx.ix.iter_funcs():
+        if f.mod == "leaspy.algo.settings" or not f.mod.startswith("leaspy.algo"):
+            continue
+        for st in statements(f.node):
+            tgt = None
+            if isinstance(st, (ast.Assign, ast.AugAssign)):
+                for t in (st.targets if isinstance(st, ast.Assign) else [st.target]):
+                    base = t.value if isinstance(t, ast.Subscript) else t
+                    if SETTINGS.search(U(base)):
+                        tgt = t
+            elif isinstance(st, ast.Expr) and isinstance(st.value, ast.Call) and isinstance(st.value.func, ast.Attribute) and st.value.func.attr in ("update", "setdefault", "pop", "clear", "__setitem__") \
+                    and SETTINGS.search(U(st.value.func.value)):
+                tgt = st.value
+            if tgt is not None:
+                ctx.violation("C05.R4b", f, st, f"`{U(st)[:80]}` writes the caller's settings: a burn-in length derived from the fraction for this run becomes an explicit `n_burn_in_iter` "
+                              "for the next algorithm built from the same settings (and then has priority over the fraction)", construct="settings written back")
 
 
 def r6_iteration_counter(ctx):
